@@ -14,6 +14,7 @@ import (
 	"sort"
 	"strings"
 	"sync"
+	"time"
 )
 
 // PropResult is a property-oracle verdict on one case.
@@ -209,11 +210,23 @@ func execCases(casesPath, outPath, propsPath, statsPath string) error {
 	return nil
 }
 
-func safeExec(e Engine, fields []string) (r Result) {
-	defer func() {
-		if x := recover(); x != nil {
-			r = Result{Out: "harness-panic:" + strings.ReplaceAll(fmt.Sprint(x), " ", "_")}
-		}
+func safeExec(e Engine, fields []string) Result {
+	ch := make(chan Result, 1)
+	go func() {
+		defer func() {
+			if x := recover(); x != nil {
+				ch <- Result{Out: "harness-panic:" + strings.ReplaceAll(fmt.Sprint(x), " ", "_")}
+			}
+		}()
+		ch <- e.Exec(fields)
 	}()
-	return e.Exec(fields)
+	select {
+	case r := <-ch:
+		return r
+	case <-time.After(caseTimeout):
+		// a case that never finishes is reported, not waited for (the goroutine is abandoned)
+		return Result{Out: "case-timeout", Props: []PropResult{{Prop: "HARNESS", Key: "case-timeout", Desc: "case did not finish"}}}
+	}
 }
+
+var caseTimeout = 120 * time.Second
